@@ -1,6 +1,6 @@
 (* C07 - clip masks select exactly the intersecting cells plus the requested buffer. *)
 From Coq Require Import ZArith List Bool Sorted.
-From EV Require Import Base.Index Base.ListX Model.Mask Model.UMask Proofs.MaskP.
+From EV Require Import Base.Index Base.ListX Model.Mask Model.UMask Proofs.MaskP Base.Geom Model.Lookup Proofs.LookupP2.
 Import ListNotations.
 Open Scope Z_scope.
 
@@ -98,3 +98,24 @@ Print Assumptions C07_renumber.
 Theorem C07_renumber_unsorted_refuted : exists kept, new_index_table 2 kept = [Some 1; Some 0].
 Proof. exact renumber_unsorted_refuted. Qed.
 Print Assumptions C07_renumber_unsorted_refuted.
+
+(* ---- clip regions with a hole (an outer ring minus the open inside of a convex hole) ---- *)
+
+(* a cell is marked exactly when it has geometry, meets the outer ring and has a vertex outside the open hole *)
+Theorem C07_region_with_hole : forall ps outer hole n,
+  In n (hits_holed ps outer hole) <->
+  0 <= n /\ exists r, nth_error ps (Z.to_nat n) = Some (Some r) /\ ring_meets_ring r outer = true /\
+                      exists v, In v r /\ in_open_hole hole v = false.
+Proof. exact hits_holed_spec. Qed.
+Print Assumptions C07_region_with_hole.
+
+(* cutting a hole out of a region never marks a cell the whole region does not mark *)
+Theorem C07_hole_only_removes : forall ps outer hole n, In n (hits_holed ps outer hole) -> In n (hits_ring ps outer).
+Proof. exact hits_holed_subset. Qed.
+Print Assumptions C07_hole_only_removes.
+
+(* a cell lying in the open hole is not marked *)
+Theorem C07_cell_in_hole_unmarked : forall ps outer hole n r, nth_error ps (Z.to_nat n) = Some (Some r) ->
+  forallb (in_open_hole hole) r = true -> ~ In n (hits_holed ps outer hole).
+Proof. exact in_hole_not_hit. Qed.
+Print Assumptions C07_cell_in_hole_unmarked.
